@@ -93,7 +93,9 @@ def fragment_form(rng, big=False):
         t = r.get("type", "")
         if t.startswith("rank "):
             r["type"] = rng.choice(["select_one ", "select_multiple "]) + t.split(" ", 1)[1]
-    tops = [r["name"] for r, d, _ in _walk_rows(form) if d == 0 and "name" in r and not r.get("type", "").startswith(("begin", "end"))]
+    # reference targets: every named element (questions at any depth, inside repeats, and a few sections)
+    tops = [r["name"] for r, d, _ in _walk_rows(form)
+            if "name" in r and (not r.get("type", "").startswith(("begin", "end")) or rng.random() < 0.15)]
 
     def expr(self_name):
         forms = [". > 0", "true()", "1 + 1", "string-length(.) < 10", ". != ''", "yes", "no"]
@@ -178,6 +180,17 @@ def fragment_form(rng, big=False):
         rows.append({"type": "text", "name": "bad name", "label": "x"})
     elif r < 0.25:
         rows.append({"type": "text", "name": "ctl_q", "label": "a\x01b"})
+    elif r < 0.28:
+        rows.append({"type": "integer", "name": "unk_ref_q", "label": "U", "relevant": "${no_such_q} > 1"})
+    elif r < 0.32 and tops:
+        # the same name in two sections: fine unless it is referenced (then ambiguous → rejected)
+        t = rng.choice(tops)
+        rows += [{"type": "begin group", "name": "dupsec_g", "label": "G"}, {"type": "text", "name": t, "label": "again"},
+                 {"type": "end group"}]
+    elif r < 0.34:
+        rows.append({"type": "calculate", "name": "idx_q", "calculation": "indexed-repeat(${%s}, ${%s}, 1)" % ((tops or ["x"])[0], (tops or ["x"])[-1])})
+    elif r < 0.36:
+        rows.append({"type": "text", "name": "mal_q", "label": "M", "relevant": "${ bad} > 1"})
     return form
 
 
@@ -240,6 +253,8 @@ def e2e_case(ctx, form, record=True) -> None:
                              first_diff(r1.get("xform", ""), m["pretty"]), "see impl")
             else:
                 ctx.count("e2e:byte-exact")
+                if '="../' in r0["xform"] or " ../" in r0["xform"]:
+                    ctx.count("e2e:byte-exact with relative paths")
     if record:
         ctx.record({"form": form}, answered)
 
